@@ -57,8 +57,7 @@ Definition ato_spec (now arrival : Z) : Z :=
     let d := now - arrival in
     if 1024 * d >? 8189 * 1000000000 then 8190 else (1024 * d) / 1000000000.
 
-(* metric block as one number: Received * 2^18 + ECN * 2^16 + ArrivalTimeOffset *)
-Definition mbz (received : bool) (ecn a : Z) : Z := (if received then 262144 else 0) + ecn * 65536 + a.
+(* metric blocks are read as one number: Received * 2^18 + ECN * 2^16 + ArrivalTimeOffset (mbz) *)
 Definition mbz_received (m : Z) : bool := 262144 <=? m.
 
 Definition expected_mb (st : ost) (now s : Z) : Z :=
@@ -122,6 +121,15 @@ Definition o_report (st : ost) (now B begin : Z) (mbs : list Z) : nat * ost :=
          (if n >=? B then Z.max (o_tfloor st) start else o_tfloor st)
          []).
 
+(* code 7 has the lowest priority: the walk goes on after it (it changes nothing in the
+   oracle state) and any other failure later in the history is reported instead *)
+Definition defer7 (c : nat) (rest : nat) : nat :=
+  match c with
+  | O => rest
+  | 7%nat => match rest with O => 7%nat | c' => c' end
+  | _ => c
+  end.
+
 (* the k streams, sorted by SSRC *)
 Definition ostreams := list (Z * ost).
 
@@ -135,8 +143,6 @@ Fixpoint os_add (r : ostreams) (ts ssrc seq ecn : Z) : ostreams :=
   end.
 
 (* implementation output of one report: blocks (ssrc, begin, metric blocks as numbers), sorted by SSRC *)
-Definition oblock := (Z * Z * list Z)%type.
-
 Fixpoint os_report (r : ostreams) (now B : Z) (blocks : list oblock) : nat * ostreams :=
   match r, blocks with
   | [], [] => (0%nat, [])
@@ -145,7 +151,7 @@ Fixpoint os_report (r : ostreams) (now B : Z) (blocks : list oblock) : nat * ost
       else
         let '(c, s') := o_report s now B begin mbs in
         let '(c2, tl') := os_report tl now B btl in
-        ((match c with O => c2 | _ => c end), (k, s') :: tl')
+        (defer7 c c2, (k, s') :: tl')
   | _, _ => (1%nat, r)
   end.
 
@@ -155,8 +161,11 @@ Definition fair_share (maxSize k : Z) : Z :=
   let p := Z.min (total / k) 16384 in
   p - p mod 2.
 
+Definition too_many (blocks : list oblock) : bool :=
+  existsb (fun b => Z.of_nat (length (snd b)) >? 16384) blocks.
+
 Definition size_code (maxSize k mlen : Z) (blocks : list oblock) : nat :=
-  if existsb (fun b => Z.of_nat (length (snd b)) >? 16384) blocks || (mlen <? 0) then 9%nat
+  if too_many blocks || (mlen <? 0) then 9%nat
   else if (12 + 8 * k <=? maxSize) && (maxSize <? mlen) then 8%nat
   else 0%nat.
 
@@ -177,12 +186,9 @@ Fixpoint spec_walk (r : ostreams) (ops : list c08op) (outs : list oreport) : nat
       | (mlen, blocks) :: otl =>
           let k := Z.of_nat (length r) in
           let '(c, r') := os_report r now (fair_share maxSize k) blocks in
-          match c with
-          | O => match size_code maxSize k mlen blocks with
-                 | O => spec_walk r' tl otl
-                 | c2 => c2
-                 end
-          | _ => c
+          match size_code maxSize k mlen blocks with
+          | O => defer7 c (spec_walk r' tl otl)
+          | c2 => match c with O | 7%nat => c2 | _ => c end
           end
       end
   | BuildRaw now budget :: tl =>
@@ -190,9 +196,6 @@ Fixpoint spec_walk (r : ostreams) (ops : list c08op) (outs : list oreport) : nat
       | [] => 1%nat
       | (mlen, blocks) :: otl =>
           let '(c, r') := os_report r now budget blocks in
-          match c with
-          | O => spec_walk r' tl otl
-          | _ => c
-          end
+          defer7 c (spec_walk r' tl otl)
       end
   end.
